@@ -98,7 +98,8 @@ def run_taylor(fname, z0, n, r, ratio, nex, which='taylor', **kw):
         with np.errstate(all='ignore'):
             if which == 'taylor':
                 return ndf.taylor(f, z0, n=n, r=r, num_extrap=nex, step_ratio=ratio, full_output=True, **kw)
-            return ndf.derivative(f, z0, n=n, r=r, num_extrap=nex, step_ratio=ratio, full_output=True, **kw)
+            # derivative() is also given n as a numpy integer (its results are compared with taylor() x k!)
+            return ndf.derivative(f, z0, n=np.int64(n), r=r, num_extrap=nex, step_ratio=ratio, full_output=True, **kw)
 
 
 def work(chunk):
